@@ -48,13 +48,22 @@ func guard(f func()) (res string, what string) {
 		f()
 		done <- [2]string{"ok", ""}
 	}()
+	// a deadlocked call is an observation too; after a few of them the
+	// watchdog gets impatient so that a tree that hangs everywhere still ends
+	to := 3 * time.Second
+	if hangs >= 5 {
+		to = 300 * time.Millisecond
+	}
 	select {
 	case r := <-done:
 		return r[0], r[1]
-	case <-time.After(10 * time.Second):
+	case <-time.After(to):
+		hangs++
 		return "hang", ""
 	}
 }
+
+var hangs int
 
 // ---------------------------------------------------------------------------
 // ingest
@@ -126,7 +135,7 @@ func runIngest(targets []string, io IOpts, ops []Op) ([]Op, []IObs) {
 	now := int64(1000)
 	cache.Now = func() time.Time { return time.Unix(0, now) }
 	latency.Now = cache.Now
-	var opts []cache.Option
+	opts := []cache.Option{nil} // a nil Option is legal and skipped
 	if io.NoEvent {
 		opts = append(opts, cache.DisableEventDrivenEmulation())
 	}
@@ -148,8 +157,22 @@ func runIngest(targets []string, io IOpts, ops []Op) ([]Op, []IObs) {
 	}
 	seen := make([]Op, 0, len(ops))
 	obs := make([]IObs, 0, len(ops))
+	hung := false
 	for _, op := range ops {
 		now += 10
+		if hung {
+			// the target's lock is gone: later calls of this case would only wait
+			if op.K == "refresh" {
+				seen = append(seen, Op{K: "refresh"})
+				obs = append(obs, IObs{Refresh: true, Res: "hang"})
+			} else if op.K == "msg" && op.N != nil {
+				m := &pb.Notification{}
+				wire(notiPB(op.N), m)
+				seen = append(seen, Op{K: "msg", N: notiAbs(m)})
+				obs = append(obs, IObs{Res: "hang", Dump: obs[len(obs)-1].Dump})
+			}
+			continue
+		}
 		if op.K == "refresh" {
 			res, what := guard(func() { c.UpdateMetadata() })
 			seen = append(seen, Op{K: "refresh"})
@@ -165,6 +188,16 @@ func runIngest(targets []string, io IOpts, ops []Op) ([]Op, []IObs) {
 		var err error
 		res, what := guard(func() { err = c.GnmiUpdate(m) })
 		o := IObs{Res: res, Panic: what}
+		if res == "hang" {
+			hung = true
+			o.Dump = map[string][]DLeaf{}
+			if len(obs) > 0 {
+				o.Dump = obs[len(obs)-1].Dump
+			}
+			seen = append(seen, Op{K: "msg", N: abs})
+			obs = append(obs, o)
+			continue
+		}
 		if res == "ok" && err != nil {
 			var el errlist.Errors
 			switch {
@@ -426,8 +459,13 @@ func (s *fakeSub) Recv() (*pb.SubscribeResponse, error) {
 	}
 	r := s.script[s.pos]
 	s.pos++
+	if r == nil {
+		return nil, errStream
+	}
 	return r, nil
 }
+
+var errStream = errors.New("harness: scripted stream failure")
 func (s *fakeSub) CloseSend() error { return nil }
 
 type fakeImpl struct{ *gclient.Client }
@@ -449,6 +487,11 @@ func script(ops []Op) ([]Op, []*pb.SubscribeResponse, []string) {
 	valid := map[string]bool{}
 	for _, op := range ops {
 		if op.K != "resp" || op.R == nil {
+			continue
+		}
+		if op.R.K == "fail" {
+			seen = append(seen, Op{K: "resp", R: &Resp{K: "fail"}})
+			out = append(out, nil)
 			continue
 		}
 		m := &pb.SubscribeResponse{}
@@ -522,9 +565,9 @@ func runRecv(qt string, ops []Op) ([]Op, RObs) {
 			case client.Connected:
 				evs = append(evs, Ev{K: "connected"})
 			case client.Update:
-				evs = append(evs, Ev{K: "update", P: append([]string{}, v.Path...)})
+				evs = append(evs, Ev{K: "update", P: v.Path}) // retained as handed over, read at the end
 			case client.Delete:
-				evs = append(evs, Ev{K: "delete", P: append([]string{}, v.Path...)})
+				evs = append(evs, Ev{K: "delete", P: v.Path})
 			case client.Sync:
 				evs = append(evs, Ev{K: "sync"})
 			case nil:
@@ -716,18 +759,25 @@ type MObs struct {
 	Panic string `json:"panic,omitempty"`
 }
 
-func runMgr(ops []Op) ([]Op, []MObs) {
-	seen, sc, _ := script(ops)
+func runMgr(ops []Op, noCB bool) ([]Op, []MObs) {
+	var real []Op
+	for _, op := range ops {
+		if op.K == "resp" && op.R != nil && op.R.K != "fail" {
+			real = append(real, op)
+		}
+	}
+	seen, sc, _ := script(real)
 	code := 0
 	cm, err := connection.NewManager()
 	if err != nil {
 		vh.Die("connection manager: %v", err)
 	}
-	m, err := manager.NewManager(manager.Config{
-		ConnectionManager: cm,
-		Update:            func(string, *pb.Notification) { code = 1 },
-		Sync:              func(string) { code = 2 },
-	})
+	cfg := manager.Config{ConnectionManager: cm}
+	if !noCB {
+		cfg.Update = func(string, *pb.Notification) { code = 1 }
+		cfg.Sync = func(string) { code = 2 }
+	}
+	m, err := manager.NewManager(cfg)
 	if err != nil {
 		vh.Die("manager: %v", err)
 	}
@@ -745,7 +795,7 @@ func runMgr(ops []Op) ([]Op, []MObs) {
 	return seen, obs
 }
 
-func mgrTerm(nm *vh.Names, ops []Op, obs []MObs) string {
+func mgrTerm(nm *vh.Names, ops []Op, obs []MObs, noCB bool) string {
 	parts := make([]string, len(ops))
 	for i, op := range ops {
 		res := obs[i].Res
@@ -754,5 +804,5 @@ func mgrTerm(nm *vh.Names, ops []Op, obs []MObs) string {
 		}
 		parts[i] = fmt.Sprintf("(%s, (%s, %s))", gResp(nm, op.R), gOclass(res), gN(uint64(obs[i].Code)))
 	}
-	return "CMgr " + vh.List(parts)
+	return "CMgr " + vh.Bool(!noCB) + " " + vh.List(parts)
 }
